@@ -113,3 +113,27 @@ void _ZNSt8__detail15_List_node_base11_M_transferEPS0_S1_(uint8_t* self, uint8_t
 #ifdef LL_EXTRA_STUBS
 #include LL_EXTRA_STUBS
 #endif
+/* errno + strtoull/strtoll ("C" locale, bases 8/10/16/0), as specified by C11 7.22.1.4 */
+#ifndef LL_NO_STRTO
+static int ll_errno_cell;
+uint8_t* ll___errno_location(void) { return (uint8_t*)&ll_errno_cell; }
+static int ll_digitval(uint8_t c) { if (c >= '0' && c <= '9') return c - '0'; if (c >= 'a' && c <= 'z') return c - 'a' + 10; if (c >= 'A' && c <= 'Z') return c - 'A' + 10; return 99; }
+uint64_t ll_strtoull(uint8_t* nptr, uint8_t* endptr, uint32_t base) {
+  uint8_t* s = nptr; int neg = 0; uint64_t acc = 0; int any = 0, ovf = 0;
+  while (*s == ' ' || (*s >= 9 && *s <= 13)) s++;
+  if (*s == '-') { neg = 1; s++; } else if (*s == '+') s++;
+  if ((base == 0 || base == 16) && s[0] == '0' && (s[1] == 'x' || s[1] == 'X') && ll_digitval(s[2]) < 16) { s += 2; base = 16; }
+  if (base == 0) base = (s[0] == '0') ? 8 : 10;
+  for (;; s++) { int d = ll_digitval(*s); if (d >= (int)base) break; any = 1;
+    if (acc > (UINT64_MAX - (uint64_t)d) / base) ovf = 1; else acc = acc * base + (uint64_t)d; }
+  if (endptr) *(uint8_t**)endptr = any ? s : nptr;
+  if (ovf) { ll_errno_cell = 34 /*ERANGE*/; return UINT64_MAX; }
+  return neg ? (uint64_t)0 - acc : acc;
+}
+#endif
+uint32_t ll_isspace(uint32_t c) { return c == ' ' || (c >= 9 && c <= 13); }
+uint32_t ll_isalnum(uint32_t c) { return ll_isdigit(c) || ll_isalpha(c); }
+uint32_t ll_isupper(uint32_t c) { return c >= 'A' && c <= 'Z'; }
+uint32_t ll_islower(uint32_t c) { return c >= 'a' && c <= 'z'; }
+uint32_t ll_isprint(uint32_t c) { return c >= 0x20 && c <= 0x7e; }
+void ll_exit(uint32_t code) { LL_TRAP(); }
